@@ -914,7 +914,8 @@ func TestVerif_C21(t *testing.T) {
 	r.Assume("Config.Max{Bidi,Uni}RemoteStreams: 0 means 100, negative means 0 (doc comment)")
 
 	var mu sync.Mutex
-	n := r.N(60, 1500)
+	phaseStart := time.Now() // wall clock, reported in a note only
+	n := r.N(60, 3000)
 	r.CasesParallel("lossy-limits", n, 8, func(c *verifrt.Case) {
 		lc := c21GenLossy(c.Rng)
 		c.Describe(lc)
@@ -924,6 +925,7 @@ func TestVerif_C21(t *testing.T) {
 		})
 		if res.HandshakeErr != nil {
 			r.Event("handshake_failed", 1)
+			r.Note("lossy case %d: handshake failed: %v", c.Index, res.HandshakeErr)
 			return
 		}
 		w := res.Wire
@@ -968,8 +970,11 @@ func TestVerif_C21(t *testing.T) {
 			"max_streams_sent": w.maxSent, "raising": w.maxRaised, "frames_checked": w.localChecked, "at_limit": w.localAtLimit, "virtual_ms": res.VirtualMs, "stuck": res.Stuck})
 	})
 
+	r.Note("wall time of lossy-limits: %.1fs", time.Since(phaseStart).Seconds())
+	phaseStart = time.Now()
+
 	// (b) local limits against a scripted peer
-	m := r.N(300, 6000)
+	m := r.N(300, 15000)
 	r.Cases("scripted-local", m, func(c *verifrt.Case) {
 		side := []connSide{clientSide, serverSide}[c.Rng.IntN(2)]
 		pickInit := func() int64 { return []int64{0, 0, 1, 2, 3, 7, 100, 1 << 60}[c.Rng.IntN(8)] }
@@ -1146,8 +1151,11 @@ func TestVerif_C21(t *testing.T) {
 		}
 	})
 
+	r.Note("wall time of scripted-local: %.1fs", time.Since(phaseStart).Seconds())
+	phaseStart = time.Now()
+
 	// (c) remote limits against a scripted peer
-	m = r.N(400, 8000)
+	m = r.N(400, 20000)
 	r.Cases("scripted-remote", m, func(c *verifrt.Case) {
 		side := []connSide{clientSide, serverSide}[c.Rng.IntN(2)]
 		pickCfg := func() int64 { return []int64{-1, 1, 1, 2, 3, 3, 5, 8, 10, 50, 0, 100, 150, 250, 1000}[c.Rng.IntN(15)] }
@@ -1515,6 +1523,8 @@ func TestVerif_C21(t *testing.T) {
 			r.Sample(map[string]any{"kind": "scripted-remote", "cfg": cfg, "log": log})
 		}
 	})
+
+	r.Note("wall time of scripted-remote: %.1fs", time.Since(phaseStart).Seconds())
 
 	r.Require("lossy_runs_completed", int64(n/2))
 	r.Require("lossy_runs_transport_params_read_off_the_wire", int64(n*8/10))
